@@ -24,8 +24,10 @@ Inductive op :=
    (fixed-length pool, wrong length), 4 no free node.  Remove: 0 / 2.  Exist: 0 / 1.  Len: n.
    -9: walk fuel exhausted (a cyclic chain; excluded by the invariant) *)
 
-Record cfg := { cap : Z; ksz : Z; fixed : bool }.
-Definition hsz (c : cfg) : Z := cap c * 5.                   (* LOAD_FACTOR = 5 *)
+(* nb = haSize, the number of buckets (elemNum * LOAD_FACTOR in NewHashSet; the harness reads it off the real set,
+   so the model does not depend on the load factor) *)
+Record cfg := { cap : Z; ksz : Z; fixed : bool; nb : Z }.
+Definition hsz (c : cfg) : Z := nb c.
 Definition bucket (c : cfg) (h : Z) : Z := h mod hsz c.      (* hashFunc(key) % uint64(haSize) *)
 Definition validate (c : cfg) (k : key) : bool := klen k <=? ksz c.     (* nodePool.validateKey *)
 (* IBytePool.Set succeeds? (index is always in range here) *)
